@@ -77,3 +77,74 @@ def run_verus(pid, unit, tier, seed, keep=False):
     finally:
         if not keep:
             shutil.rmtree(s, ignore_errors=True)
+
+
+def run_dfa(pid, unit, tier, seed, keep=False):
+    """C01: generated validators == RFC reference DFAs (Verus), counterexample = shortest
+    distinguishing string replayed on the real constructor."""
+    import dfa
+    t0 = time.time()
+    out = {"kind": "dfa", "name": unit.get("name", "generated automata vs RFC reference DFAs"), "backend": "Verus 0.2026.09.13 / Z3 (bundled); witness map by product BFS (python)",
+           "violations": [], "undecided": [], "samples": [], "functions": [], "bounded": []}
+    s = engine.scratch_root()
+    w = engine.scratch_root()
+    try:
+        engine.copy_repo(s)
+        try:
+            results, expand_cmd = dfa.check_all(s, w, tier=tier, rlimit=unit.get("rlimit", 600))
+        except Exception as e:
+            out["undecided"].append({"what": "C01 pipeline could not run: %s" % e})
+            return out
+        out["checker_cmd"] = "verus dfa_<family>_<Type>.rs --rlimit %s   (20 files generated from: %s)" % (unit.get("rlimit", 600), expand_cmd[:200] + " ...")
+        out["rlimit"] = unit.get("rlimit", 600)
+        n_obl = 0
+        n_ok = 0
+        smt = 0.0
+        replay_bin = None
+        for r in results:
+            if r.get("status") == "skipped":
+                continue
+            # per type: postcondition, loop invariant (init + preservation), termination
+            n_obl += 4
+            smt += r.get("smt_s") or 0
+            ob = "C01::%s::validate::ensures(r == lang_%s)" % (r["type"], (r.get("production") or "?").split(":")[-1])
+            out["functions"].append("%s::validate (expanded, R7)" % r["type"])
+            if r["status"] == "proved":
+                n_ok += 4
+                out["samples"].append({"type": r["type"], "production": r.get("production"), "code_states": r.get("code_states"), "reference_states": r.get("ref_states"), "smt_s": r.get("smt_s")})
+            elif r["status"] in ("differs", "failed"):
+                v = {"obligation": ob, "message": "generated automaton and RFC production accept different languages" if r["status"] == "differs" else "Verus could not establish the invariant",
+                     "kind": "postcondition", "function": r["type"] + "::validate", "verifier_output": (r.get("verus_stderr") or "")[-3000:], "input": None}
+                if r.get("witness") is not None:
+                    wit = r["witness"]
+                    try:
+                        text = bytes(wit) if r["elem"] == "u8" else "".join(chr(c) for c in wit).encode("utf-8")
+                        if replay_bin is None:
+                            replay_bin = engine.build_replay(s)
+                        fam, ty = r["type"].split("::")
+                        rc, so, se = engine.replay(replay_bin, "new", fam, ty, text.hex())
+                        v["input"] = {"op": "new", "family": fam, "type": ty, "text_hex": text.hex(), "text": text.decode("utf-8", "replace"),
+                                      "rfc_language": r.get("witness_in_rfc_language"), "real_constructor": so or se}
+                        confirmed = (so == "accept") != bool(r.get("witness_in_rfc_language"))
+                        v["replay_confirms"] = confirmed
+                        if not confirmed:
+                            v["input"] = None
+                            v["message"] += " (witness from the automata did not reproduce on the real constructor)"
+                    except Exception as e:
+                        v["message"] += " (replay failed: %s)" % e
+                out["violations"].append(v)
+            else:
+                out["undecided"].append({"what": "%s: %s" % (r["type"], r.get("detail", r["status"]))})
+        out["obligations"] = n_obl
+        out["discharged"] = n_ok
+        out["smt_time_s"] = round(smt, 1)
+        out["trusted_base"] = ["Verus + Z3", "rustc -Zunpretty=expanded output is the code rustc compiles",
+                               "R7: `input.next()` on slice::iter().copied() / str::chars() replaced by a slice cursor (iterator protocol and UTF-8 decoding of str::chars assumed)",
+                               "the generated `new`/`TryFrom`/`FromStr`/serde wrappers call `validate` and keep the text (dependency output; not proved)",
+                               "/verif/spec/rfc3986.abnf and rfc3987.abnf are faithful transcriptions of the RFC productions; tools/abnf.py compiles them correctly (reference DFA construction is not verified; an error there shows up as a mismatch, not as a silent pass, unless it coincides with the same error in the repository's automata)"]
+        out["wall_s"] = round(time.time() - t0, 1)
+        return out
+    finally:
+        shutil.rmtree(s, ignore_errors=True)
+        if not keep:
+            shutil.rmtree(w, ignore_errors=True)
